@@ -1,10 +1,112 @@
 import DFV.JsonField
+import DFV.Model.C16
 namespace DFV.Drv
-open Lean DFV
+open Lean DFV DFV.C16
 
-/-- driver ops of property C16 (stub: no ops yet) -/
+namespace C16J
+
+def varrToJson (a : VArr) : Json :=
+  Json.mkObj [("name", .str a.name), ("ncomp", .num (JsonNumber.fromNat a.ncomp)), ("int", .bool a.int),
+    ("vals", ratsJ a.vals)]
+
+def varrOfJson (j : Json) : R VArr := do
+  let name ← strOfJson (← fld j "name")
+  let ncomp ← natOfJson (← fld j "ncomp")
+  let int ← boolOfJson (← fld j "int")
+  let vals ← rats j "vals"
+  pure { name, ncomp, int, vals }
+
+def gridToJson (g : Grid) : Json :=
+  Json.mkObj [("dims", natsJ g.dims), ("coords", listJ ratsJ g.coords), ("cell", listJ varrToJson g.cell)]
+
+def gridOfJson (j : Json) : R Grid := do
+  let dims ← nats j "dims"
+  let coords ← listOf (listOf ratOfJson) (← fld j "coords")
+  let cell ← listOf varrOfJson (← fld j "cell")
+  pure { dims, coords, cell }
+
+def sidecarOfJson (j : Json) (k : String) : R (Option (List (String × Region))) :=
+  match fldOpt j k with
+  | none => pure none
+  | some s => do
+    let a ← arr s
+    let l ← a.toList.mapM fun e => do
+      let nm ← strOfJson (← fld e "name")
+      let r ← regionOfJson e
+      pure (nm, r)
+    pure (some l)
+
+def sidecarToJson : Option (List (String × Region)) → Json
+  | none => .null
+  | some l => listJ (fun (p : String × Region) => (regionToJson p.2).setObjVal! "name" (.str p.1)) l
+
+def llineOfJson (j : Json) : R LLine := do
+  let t ← strOfJson (← fld j "t")
+  match t with
+  | "coords" => do pure (.coords (← natOfJson (← fld j "count")))
+  | "nums" => do pure (.nums (← rats j "xs"))
+  | "vectors" => pure .vectors
+  | "scalars" => pure .scalars
+  | "alpha" => pure .alpha
+  | "junk" => pure .junk
+  | _ => throw s!"unknown line tag {t}"
+
+def linesOfJson (j : Json) (k : String) : R (List LLine) :=
+  match fldOpt j k with
+  | none => pure []
+  | some v => listOf llineOfJson v
+
+def optNatJ : Option Nat → Json
+  | none => .null
+  | some n => .num (JsonNumber.fromNat n)
+
+def repToString : Rep → String
+  | .xml => "xml" | .bin => "bin" | .txt => "txt"
+
+end C16J
+open C16J
+
+/-- driver ops of property C16 -/
 def c16 (op : String) (j : Json) : Option (R Json) :=
   match op with
+  | "to_vtk" => some do
+      let f ← fldOfJson (← fld j "field")
+      pure (resJ gridToJson (toVtk f))
+  | "lookup" => some do
+      -- cell lookup in the grid built from the field, next to `point2index` of the mesh and the
+      -- exact fractional position of every point (boundary comparator)
+      let f ← fldOfJson (← fld j "field")
+      let pts ← listOf (listOf ratOfJson) (← fld j "pts")
+      match toVtk f with
+      | .error e => pure (errJ e)
+      | .ok g =>
+        let m := f.mesh
+        pure (Json.mkObj [("ok", listJ (fun (p : List Rat) =>
+          Json.mkObj [("id", optNatJ (locate g p)),
+            ("idx", resJ natsJ (m.point2index p)),
+            ("flat", match m.point2index p with
+                     | .ok i => optNatJ (some (flatF m.n i))
+                     | .error _ => .null),
+            ("frac", ratsJ (tab m.ndim fun a =>
+              (p.getD a 0 - m.region.lo a) / m.cellAt a - (((p.getD a 0 - m.region.lo a) / m.cellAt a).floor : Rat)))])
+          pts)])
+  | "read" => some do
+      let g ← gridOfJson (← fld j "grid")
+      let sc ← sidecarOfJson j "sidecar"
+      let lines ← linesOfJson j "lines"
+      pure (resJ fldToJson (readVtk g lines sc))
+  | "to_file" => some do
+      let f ← fldOfJson (← fld j "field")
+      let rep ← strOfJson (← fld j "rep")
+      let save ← boolOfJson (← fld j "save")
+      pure (resJ (fun (v : VFile) => Json.mkObj [("rep", .str (repToString v.rep)),
+        ("sidecar", sidecarToJson v.sidecar), ("ncell_arrays", .num (JsonNumber.fromNat v.grid.cell.length))])
+        (toFile f rep save id))
+  | "roundtrip" => some do
+      let f ← fldOfJson (← fld j "field")
+      let rep ← strOfJson (← fld j "rep")
+      let save ← boolOfJson (← fld j "save")
+      pure (resJ fldToJson ((toFile f rep save id).bind fromFile))
   | _ => none
 
 end DFV.Drv
